@@ -315,49 +315,48 @@ def cases_start(tier):
 
 
 def scn_start(T, case):
-    """Base case of the induction: whatever an earlier run left in the caches (values of the ensemble *of that run* at a point
-    whose free variables coincide with the new starting point), the first requests of the new run are answered with the values
-    of the ensemble of this run."""
+    """Base case of the induction, observed on an optimizer made by its REAL constructor: whatever an earlier run on the same object
+    left behind (it asked for the objective, the gradient, the constraint at a point whose free variables coincide with the new
+    starting point - the ensemble *of that run*), the first requests of the new run are answered with the values of the ensemble of
+    this run."""
+    from contracts import C08
+
     method, K = case["method"], case["K"]
+    has_cv, has_cf, has_cg = case["cached"]
     handed = {}
+    env = {"run": 0}
 
     def first_requests(kw, kind):
         # the algorithm issues its first requests WHILE start() runs (not after it returned)
         fun = kw["fun"] if kind == "minimize" else kw["func"]
+        cons = kw.get("constraints") or ()
+        if env["run"] == 0:
+            # the earlier run: what it asks for is what it leaves behind
+            if has_cf:
+                fun(kw["x0"])
+                if cons and isinstance(cons, (tuple, list)) and isinstance(cons[0], dict):
+                    cons[0]["fun"](kw["x0"])
+            if has_cg and kind == "minimize" and kw.get("jac") not in (None, False):
+                kw["jac"](kw["x0"])
+            return
+        handed.update(kw)
+        handed["kind"] = kind
         handed["got"] = fun(kw["x0"])
         handed["calls_after_first_objective"] = list(calls)
-        cons = kw.get("constraints") or ()
-        if cons:
+        if cons and isinstance(cons, (tuple, list)) and isinstance(cons[0], dict):
             handed["gotc"] = cons[0]["fun"](kw["x0"])
         if kind == "minimize" and kw.get("jac") not in (None, False):
             handed["gotg"] = kw["jac"](kw["x0"])
 
-    def fake_minimize(**kw):
-        handed.update(kw)
-        handed["kind"] = "minimize"
-        first_requests(kw, "minimize")
-
-    def fake_de(**kw):
-        handed.update(kw)
-        handed["kind"] = "de"
-        first_requests(kw, "de")
-
-    stubs = {(MS, "minimize"): fake_minimize, (MS, "differential_evolution"): fake_de}
+    stubs = {(MS, "minimize"): lambda **kw: first_requests(kw, "minimize"), (MS, "differential_evolution"): lambda **kw: first_requests(kw, "de")}
     saved = None
-    if T.symbolic:
-        sh = T.shadow([MS, MU], stubs)
-        cls = T.under_contract(sh, MS, "SciPyOptimizer", stubs)
-        T.under_contract(sh, MS, "SciPyOptimizer.start", stubs)
-        NC = T.under_contract(sh, MU, "NormalizedConstraints")
-    else:
+    if not T.symbolic:
         import importlib
 
         real = importlib.import_module(MS)
         saved = {k[1]: getattr(real, k[1]) for k in stubs}
         for k, v in stubs.items():
             setattr(real, k[1], v)
-        cls = T.func(MS, "SciPyOptimizer")
-        NC = T.func(MU, "NormalizedConstraints")
     try:
         calls = []
         Fold, Gold = _F(T, K)
@@ -371,31 +370,22 @@ def scn_start(T, case):
             Fnew, Gnew = Fold, Gold
 
         def callback(variables, *, return_functions, return_gradients):
-            calls.append((return_functions, return_gradients))
-            return (Fnew(variables) if return_functions else T.np.array([])), (Gnew(variables) if return_gradients else T.np.array([]))
+            F, G = (Fold, Gold) if env["run"] == 0 else (Fnew, Gnew)
+            if env["run"]:
+                calls.append((return_functions, return_gradients))
+            return (F(variables) if return_functions else T.np.array([])), (G(variables) if return_gradients else T.np.array([]))
 
-        mask = None if case["mask"] is None else np.array(case["mask"], dtype=bool)
-        opt = object.__new__(cls)
-        opt._config = types.SimpleNamespace(optimizer=types.SimpleNamespace(speculative=False, split_evaluations=False, tolerance=None, parallel=False),
-                                            nonlinear_constraints=types.SimpleNamespace() if K else None, variables=types.SimpleNamespace(mask=mask))
-        opt._method = method
-        opt._parallel = False
-        opt._optimizer_callback = callback
-        opt._bounds = None
-        opt._options = {}
-        nlb, nub = [0.0] * K, [np.inf] * K
-        opt._normalized_constraints = NC(np.array(nlb), np.array(nub)) if K else None
-        x0free = T.real("x0", (N,))
-        initial = x0free if mask is None else T.np.array([x0free[0], x0free[1], T.real("fixed", ())])
-        has_cv, has_cf, has_cg = case["cached"]
-        opt._cached_variables = x0free.copy() if has_cv else None
-        opt._cached_function = Fold(x0free) if has_cf else None
-        opt._cached_gradient = Gold(x0free) if has_cg else None
-        if K and has_cf:
-            ref = NC(np.array(nlb), np.array(nub))
-            ref.set_constraints(Fold(x0free)[1:])
-            opt._normalized_constraints._constraints = ref.constraints
-        opt._constraints = ({"type": "ineq", "fun": lambda x: opt._fun(x, 0, None), "jac": lambda x: opt._jac(x, 0, None)},) if K else ()
+        Nv = N if case["mask"] is None else len(case["mask"])
+        opt0, cfg, (nlb, nub, llb, lub, A, vlb, vub, x0) = C08._optimizer(T, method, Nv, ["lower"] * K, [], case["mask"], None, None, stubs if T.symbolic else None,
+                                                                        vb="finite" if method == "differential_evolution" else "none")
+        opt = type(opt0)(cfg, callback)
+        free = [i for i in range(Nv) if case["mask"] is None or case["mask"][i]]
+        x0free = T.np.array([x0[i] for i in free])
+        if has_cv:
+            opt.start(x0)
+        env["run"] = 1
+        # the new run starts where the free variables are the same; a fixed variable (if any) has another value: another ensemble
+        initial = x0 if case["mask"] is None else T.np.array([x0[i] if i in free else T.real("fixed_value_of_this_run", ()) for i in range(Nv)])
         opt.start(initial)
         T.prove("C07.start.an_algorithm_is_started", "kind" in handed)
         if "kind" not in handed:
@@ -404,16 +394,125 @@ def scn_start(T, case):
         T.prove("C07.start.first_objective_of_a_run_is_the_value_of_this_run", T.same(handed["got"], Fnew(x0free)[0]))
         if case["mask"] is not None:
             T.prove("C07.start.first_request_of_a_run_is_evaluated", sum(1 for rf, rg in handed["calls_after_first_objective"] if rf) == 1)
-        if K:
-            ref = NC(np.array(nlb), np.array(nub))
-            ref.set_constraints(Fnew(x0free)[1:])
-            T.prove("C07.start.first_constraint_value_of_a_run_is_the_value_of_this_run", "gotc" in handed and T.same(handed["gotc"], ref.constraints[0, :]))
+        if K and method != "differential_evolution":
+            T.prove("C07.start.first_constraint_value_of_a_run_is_the_value_of_this_run",
+                    "gotc" in handed and T.same(T.np.array(handed["gotc"]).reshape(-1), T.np.array([Fnew(x0free)[1] - nlb[0]])))
         if method not in NO_GRADIENT:
             T.prove("C07.start.first_gradient_of_a_run_is_the_gradient_of_this_run", "gotg" in handed and T.same(handed["gotg"], Gnew(x0free)[0, :]))
     finally:
         if saved is not None:
             for k, v in saved.items():
                 setattr(real, k, v)
+
+
+# --------------------------------------------------------------- request histories on an optimizer made by its real constructor
+def cases_histories(tier):
+    quick = tier == "quick"
+    ops = ("f", "g", "cf", "cj")
+    seqs = [(("g", 0),), (("f", 0), ("g", 0)), (("g", 0), ("f", 0)), (("f", 0), ("g", 1), ("f", 1)), (("g", 0), ("g", 1), ("f", 1)), (("f", 0), ("f", 1), ("g", 1))]
+    cseqs = [(("cj", 0), ("f", 0)), (("cf", 0), ("g", 0)), (("f", 0), ("cj", 1), ("cf", 1)), (("g", 0), ("cf", 1), ("g", 1)), (("cf", 0), ("cj", 0), ("g", 0), ("f", 0))]
+    if not quick:
+        pts = ((0,), (0, 0), (0, 1), (0, 0, 1), (0, 1, 1), (0, 1, 0))
+        seqs = [tuple(zip(o, pt)) for pt in pts for o in itertools.product(("f", "g"), repeat=len(pt))]
+        cseqs = [tuple(zip(o, pt)) for pt in pts for o in itertools.product(ops, repeat=len(pt)) if any(x in ("cf", "cj") for x in o)]
+    for spec, split in ((False, False), (True, False), (False, True), (True, True)):
+        for K, ss in ((0, seqs), (1, cseqs)):
+            for seq in ss:
+                yield "slsqp/K%d/speculative=%s/split=%s/%s" % (K, spec, split, ",".join("%s@%d" % e for e in seq)), {"method": "slsqp", "K": K, "spec": spec, "split": split, "seq": [list(e) for e in seq]}
+    for seq in ((("cf", 0), ("f", 0)), (("f", 0), ("cf", 1), ("f", 1)), (("f", 0), ("f", 0), ("cf", 0))):
+        yield "cobyla/K1/speculative=True/split=False/%s" % ",".join("%s@%d" % e for e in seq), {"method": "cobyla", "K": 1, "spec": True, "split": False, "seq": [list(e) for e in seq]}
+
+
+def scn_histories(T, case):
+    """The statement observed from outside, on an optimizer object made by its REAL constructor (whatever it keeps between requests is
+    its own business): the algorithm - a scripted stand-in for scipy.optimize.minimize, called by the real start() - issues a
+    sequence of objective / gradient / constraint / constraint-Jacobian requests at the starting point and at another point; every
+    answer is the quantity at the requested point, every evaluation is made at the requested point, nothing is evaluated twice for
+    one point, with split_evaluations no evaluation asks for both and a gradient evaluation follows the function evaluation of the
+    same point (the ensemble evaluator computes the functions within a gradient evaluation at a point whose function values it does
+    not have - C02's request sequences), and a method that uses no gradients never asks for any."""
+    from contracts import C08
+
+    method, K, seq = case["method"], case["K"], [tuple(e) for e in case["seq"]]
+    log = {"answers": [], "ncalls": []}
+    calls = []
+
+    def fake_minimize(**kw):
+        log["kw"] = kw
+        cons = kw.get("constraints") or ()
+        for op, pt in seq:
+            p = pts[pt].copy()
+            if op == "f":
+                ans = kw["fun"](p)
+            elif op == "g":
+                ans = kw["jac"](p)
+            elif op == "cf":
+                ans = cons[0]["fun"](p)
+            else:
+                ans = cons[0]["jac"](p)
+            log["answers"].append(ans)
+            log["ncalls"].append(len(calls))
+
+    stubs = {(MS, "minimize"): fake_minimize}
+    saved = None
+    if not T.symbolic:
+        import importlib
+
+        real = importlib.import_module(MS)
+        saved = {k[1]: getattr(real, k[1]) for k in stubs}
+        for k, v in stubs.items():
+            setattr(real, k[1], v)
+    try:
+        opt0, cfg, (nlb, nub, llb, lub, A, vlb, vub, x0) = C08._optimizer(T, method, N, ["lower"] * K, [], None, None, None, stubs if T.symbolic else None, vb="none" if method != "cobyla" else "none")
+        cfg.optimizer.speculative, cfg.optimizer.split_evaluations = case["spec"], case["split"]
+        off = T.real("offset_of_the_other_point", (N,), lo=1.0, hi=2.0)
+        T.assume(T.all(x0 <= 100.0) & T.all(x0 >= -100.0) if T.symbolic else bool(np.all(np.abs(np.asarray(x0, dtype=float)) <= 100.0)))
+        pts = [x0, x0 + off]
+        Fvec, Gmat = _F(T, K)
+
+        def callback(variables, *, return_functions, return_gradients):
+            calls.append((variables.copy(), return_functions, return_gradients))
+            return (Fvec(variables) if return_functions else T.np.array([])), (Gmat(variables) if return_gradients else T.np.array([]))
+
+        opt = type(opt0)(cfg, callback)
+        opt.start(x0)
+    finally:
+        if saved is not None:
+            for k, v in saved.items():
+                setattr(real, k, v)
+    T.prove("C07.history.the_algorithm_ran_its_requests", len(log["answers"]) == len(seq))
+    if len(log["answers"]) != len(seq):
+        return
+    for i, (op, pt) in enumerate(seq):
+        p, ans = pts[pt], log["answers"][i]
+        want = {"f": lambda: Fvec(p)[0], "g": lambda: Gmat(p)[0, :], "cf": lambda: T.np.array([Fvec(p)[1] - nlb[0]]), "cj": lambda: Gmat(p)[1:2, :]}[op]()
+        T.prove("C07.history.answer_is_the_quantity_at_the_requested_point[%s]" % op, T.same(T.np.array(ans).reshape(-1), T.np.array(want).reshape(-1)))
+        for (v, rf, rg) in calls[(log["ncalls"][i - 1] if i else 0):log["ncalls"][i]]:
+            T.prove("C07.history.every_evaluation_is_made_at_the_requested_point", T.same(v, p))
+    # runs of consecutive requests at one point
+    owner = []
+    for i in range(len(seq)):
+        owner += [i] * (log["ncalls"][i] - (log["ncalls"][i - 1] if i else 0))
+    run_of = [0] * len(seq)
+    for i in range(1, len(seq)):
+        run_of[i] = run_of[i - 1] + (1 if seq[i][1] != seq[i - 1][1] else 0)
+    for r in set(run_of):
+        mine = [c for c, o in zip(calls, owner) if run_of[o] == r]
+        T.prove("C07.history.nothing_is_evaluated_twice_for_one_point", sum(1 for c in mine if c[1]) <= 1 and sum(1 for c in mine if c[2]) <= 1)
+    if case["split"]:
+        T.prove("C07.history.split.no_evaluation_asks_for_functions_and_gradients_together", not any(c[1] and c[2] for c in calls))
+        last_f = None
+        ok = True
+        for c, o in zip(calls, owner):
+            if c[1]:
+                last_f = run_of[o]
+            if c[2] and last_f != run_of[o]:
+                ok = False
+        T.prove("C07.history.split.a_gradient_evaluation_follows_the_function_evaluation_of_the_same_point", ok)
+    if method in NO_GRADIENT:
+        T.prove("C07.history.gradient_free_method_never_asks_for_gradients", not any(c[2] for c in calls))
+    if case["spec"] and not case["split"] and method not in NO_GRADIENT:
+        T.prove("C07.history.speculative.at_most_one_evaluation_per_point", all(sum(1 for c, o in zip(calls, owner) if run_of[o] == r) <= 1 for r in set(run_of)))
 
 
 # ------------------------------------------------------------------------------------ what the plan steps hand on (shared contract)
@@ -535,6 +634,7 @@ SCENARIOS = [
     Scenario("optimizer_callables_from_any_state", scn_ops, cases_ops, {"quick": 3, "thorough": 20}),
     Scenario("evaluator_function_cache", scn_eval_cache, cases_eval_cache, {"quick": 5, "thorough": 30}),
     Scenario("start_begins_with_an_empty_cache", scn_start, cases_start, {"quick": 3, "thorough": 20}),
+    Scenario("request_histories_on_a_constructed_optimizer", scn_histories, cases_histories, {"quick": 3, "thorough": 10}),
     Scenario("plan_steps_hand_over", scn_steps, cases_steps, {"quick": 1, "thorough": 2}),
     Scenario("population_requests_through_the_evaluator", scn_batch, cases_batch, {"quick": 3, "thorough": 20}),
     Scenario("vectorized_population_objects_passed_to_scipy", scn_vectorized, cases_vectorized, {"quick": 2, "thorough": 10}),
